@@ -100,6 +100,12 @@ CHECKS = {
    text="The client is driven through a scripted stub GRIBIClient: generated request batches and server schedules (results reordered across ids, grouped into responses, RIB and FIB acks split, election/parameter responses interleaved; violating servers with unknown ids, duplicate terminal results, multi-field responses). At every probe, after the receiver has provably processed everything sent (Recv-call synchronisation), Pending/Results must match the client model id by id (exactly one of pending / terminal result, details carry the operation's type and key, a RIB ack never completes an operation in FIB-ack mode) and AwaitConverged must return nil iff the model is converged, and a *ClientErr after a violating schedule; a concurrent sampler checks that no operation is ever lost.",
    note="Trusted: the client model; Recv-call counting as the processing barrier; BusyLoopDelay set to 1 ms. One known finding is tolerated by signature (RIB_PROGRAMMED for a non-pending id in FIB-ack mode is not reported).",
    design="DESIGN.md §4 C13"),
+ "C14": dict(
+   technique="fault enumeration: every fault index x side x status class x burst size x epilogue on a scripted stub stream, with watchdog and goroutine-dump census oracles",
+   level="fault_enumeration",
+   text="A scripted exchange is cut by one stream fault at every message index on the send side (failing Send, or a Send stalled by flow control that then fails) and on the receive side, for EOF/Unavailable/Internal/Canceled, while the application queues a burst of 0..12 further requests; then Close, or Reset + new stub + Connect + a further exchange. The full product over small parameters is enumerated and larger ones are drawn. Done must fire, every Q must return, the error must be recorded, AwaitConverged must return a *ClientErr (never nil), Close/Reset must return, no goroutine with client frames may remain, and after Reset+Connect the client must be empty and converge again.",
+   note="Trusted: the stub's emulation of the gRPC client-stream contract; goroutine census by stack frames; 10 s watchdog (a hang is reported only with the blocked client frames in the dump).",
+   design="DESIGN.md §4 C14"),
 }
 NOT_YET = {}
 
